@@ -97,6 +97,11 @@ add("C19", True,
     "Generated matrices (mixed magnitudes, -0.0, half-way decimals, zero rows) under all FormatOptions combinations and precisions, and generated trees (holes in the index space) for Display and Dot: every shown coefficient must sit next to the index of the variable it multiplies and equal the stored (normalised) value at the printed precision, signs, inequality direction and bias must match, omissions must be marked by exactly one ellipsis at the right place with sorted order/bracketing respected, and the tree/DOT output must contain exactly one statement per node and per raw (parent,label,child) edge with the node's own function.",
     "Trusted: the output grammar of DESIGN.md Appendix B and the 150-line parser in harness/src/props/c19.rs; DOT shape attributes are outside the statement.", "DESIGN.md 6/C19")
 
+REGIMES = (" Beyond the ordinary bounds stated here, rare generator regimes (DESIGN.md 5.1; where they apply to this property) reach: "
+           "coefficients scaled by exact powers of two up to 2^+-110, -0.0 and sub-epsilon magnitudes; column-major and reversed (negative-stride) input arrays; "
+           "an installed logger; layer widths 16-40, input dimensions 8-12 and data-sized dimensions 200-1300 (evaluation / membership probes); "
+           "arenas of up to 12000 nodes, chains of up to 660 nodes, AffTree paths of 66-96 edges; data translated by 2^20..2^30; "
+           "iterator adaptors and the VERBOSE variant of compose. Exploration, never a proof of absence.")
 FUZZ = {"C02", "C03", "C04", "C06", "C07", "C08", "C09", "C10", "C12", "C13", "C15", "C19"}
 
 PENDING_REASON = "check not built yet in this round (planned; see DESIGN.md Appendix D) - no claim is made"
@@ -121,7 +126,7 @@ def main():
             "evidence_file": f"evidence/{pid}.json",
             "replay_cmd_template": f"./check {pid} --replay {{path}}",
             "engine": "vharness",
-            "level_claimed": {"category": e["category"], "text": e["text"], "design_ref": e["ref"]},
+            "level_claimed": {"category": e["category"], "text": e["text"] + REGIMES, "design_ref": e["ref"]},
             "level_note": e["note"],
             "technique": e["technique"],
         })
